@@ -850,6 +850,27 @@ func (fr *frame) loopEnv(li *loopInfo, st *State, phiVals map[*ssa.Phi]TV) *Env 
 				}
 			}
 		}
+		if strings.HasPrefix(name, "$i#") {
+			// $i#N: iterations completed by the range loop with ordinal N (an enclosing loop)
+			if n, err := strconv.Atoi(name[len("$i#"):]); err == nil {
+				for _, l := range fr.loops {
+					if l.ordinal != n {
+						continue
+					}
+					for _, in := range l.header.Instrs {
+						p, ok := in.(*ssa.Phi)
+						if !ok {
+							break
+						}
+						if p.Comment == "rangeindex" {
+							if v, ok := fr.vals[p]; ok {
+								return TV{T: fmt.Sprintf("(+ %s 1)", v.T), S: "Int"}, true
+							}
+						}
+					}
+				}
+			}
+		}
 		if name == "$visited" || strings.HasPrefix(name, "$visited#") {
 			// the set of keys yielded so far by the map iteration of this loop
 			// ($visited#N: of the map-range loop with ordinal N, e.g. an enclosing one)
